@@ -187,6 +187,12 @@ class Session:
         self.ex.fx = FxModel(self)
         self.ex.lazy_forks = True
 
+    def use_glue(self):
+        from .glue import Glue
+        self.use_fx_model()
+        self.ex.lazy_forks = False
+        Glue(self).install(FP)
+
     def use_float_contract(self):
         """replace fp.ParseJSONFloatPrefix by the harness contract vFloatStub"""
         from .executor import _TRANSFER
@@ -337,13 +343,13 @@ class Session:
             sv = self.ex.solver.lia.s
             sv.set('timeout', 1500)
             try:
-                r = self.ex.solver.check(pc, extras, (), raw)
+                r = self.ex.solver.check(pc, extras, (), raw, nocache=True)
             finally:
                 sv.set('timeout', self.ex.solver.timeout_ms)
             if r != 'sat':
                 return r, None
             return r, self.ex.solver.model_assign()
-        r = self.ex.solver.check(pc, extras, (), raw)
+        r = self.ex.solver.check(pc, extras, (), raw, nocache=True)
         if r != 'sat':
             return r, None
         return r, self.ex.solver.model_assign()
